@@ -30,6 +30,7 @@ pub fn run(harness: &str, vals: Vec<Vec<u8>>) -> i32 {
         "k4_ieee32_from_float_bits" => bodies::k4_ieee32_from_float_bits(&mut s),
         "k4_ieee64_from_float_bits" => bodies::k4_ieee64_from_float_bits(&mut s),
         "k4_v128_bytes_preserved" => bodies::k4_v128_bytes_preserved(&mut s),
+        "k4_initexpr_numeric_const_matches_upstream" => bodies::k4_initexpr_numeric_const_matches_upstream(&mut s),
         _ => { println!("unknown harness {harness}"); return 2; }
     };
     match r {
